@@ -130,6 +130,27 @@ def chord(n, r):
 
 
 def eval_scene(fam, s):
+    if s[0] == 'after-reassign':
+        # the axis Vector of the first build is re-assigned in place (v[i] = c) and used again
+        first, second = s[1], s[2]
+        axis = Vector(*first[3])
+        lib.call(lambda: {'Circle': lambda: Circle(Point(*first[1]), axis, first[2], first[4]),
+                          'Cylinder': lambda: Cylinder(Point(*first[1]), first[2], axis, first[4]),
+                          'Cone': lambda: Cone(Point(*first[1]), first[2], axis, first[4])}[first[0]]())
+        for i in range(3):
+            axis[i] = second[3][i]
+        r = lib.call(lambda: {'Circle': lambda: Circle(Point(*second[1]), axis, second[2], second[4]),
+                              'Cylinder': lambda: Cylinder(Point(*second[1]), second[2], axis, second[4]),
+                              'Cone': lambda: Cone(Point(*second[1]), second[2], axis, second[4])}[second[0]]())
+        fresh = lib.call(lambda: {'Circle': lambda: Circle(Point(*second[1]), Vector(*second[3]), second[2], second[4]),
+                                  'Cylinder': lambda: Cylinder(Point(*second[1]), second[2], Vector(*second[3]), second[4]),
+                                  'Cone': lambda: Cone(Point(*second[1]), second[2], Vector(*second[3]), second[4])}[second[0]]())
+        a, b = lib.canon(r), lib.canon(fresh)
+        from .C07 import near
+        if isinstance(r, lib.Raised) != isinstance(fresh, lib.Raised) or (not isinstance(r, lib.Raised) and not near(a, b, 1e-9)):
+            return 'after-reassign|' + second[0], [Viol('C14|after-in-place-reassignment-of-the-axis|%s|differs-from-fresh-vector' % second[0], core.enc(s), lib.describe(fresh),
+                                                        lib.describe(r), 'same axis given as a Vector object that was used before and re-assigned in place')]
+        return 'after-reassign|' + second[0], []
     if s[0] == 'after':
         # first build the same shape along another direction (the result is discarded), then the real scene
         first = s[1]
@@ -372,6 +393,10 @@ def families(tier):
             for eps_d in ((0.003, 0.002, -0.001), (-0.002, 0.004, 0.003)):
                 d2 = tuple(a + b for a, b in zip(d, eps_d))
                 seq.append(('after', (kind, CENTRES[0], 1.5, d, 5), (kind, CENTRES[1], 2.5, d2, 6)))
+    for kind in ('Circle', 'Cylinder', 'Cone'):
+        for d in [fl3(x) for x in A.D1][::2]:
+            d2 = (d[1] * 3.0 + 0.5, d[2] - 1.0, d[0] * 2.0 + 0.25)
+            seq.append(('after-reassign', (kind, CENTRES[0], 1.5, d, 5), (kind, CENTRES[1], 2.0, d2, 8)))
     fams.append(ListFamily('sequence', seq, chunk=20))
     fams.append(ListFamily('Sphere', [('Sphere',) + x for x in sph], chunk=4))
     pg = [('Parallelogram', b, X.scal(k, v1), v2) for b in ((0, 0, 0), (1, -2, F(1, 2))) for k in (1, 2, F(1, 2))
